@@ -27,4 +27,9 @@ end Syzgy.Tie.Numeric
 namespace Syzgy.Tie.Dump
 /-- ExportJSON prints vector components in the shortest form that parses back to the same float64 -/
 theorem export_format : Facts.exportVectorLoop = some "{\n\tif j > 0 {\n\t\tfmt.Fprint(w, \", \")\n\t}\n\n\tfmt.Fprint(w, strconv.FormatFloat(v, 'g', -1, 64))\n}" := rfl
+/-- ids travel as unsigned decimals: `ExportJSON` prints the `uint64` id with `%d`, `ImportJSON` decodes it into a `uint64`
+    field and hands id, vector and metadata to `AddDocument` unchanged -/
+theorem import_record : Facts.importRecord = some ["field ID uint64 `json:\"id\"`", "field Vector []float64 `json:\"vector\"`",
+      "field Metadata json.RawMessage `json:\"metadata\"`", "collection.AddDocument(doc.ID, doc.Vector, doc.Metadata)"] ∧
+    Facts.exportIdStmts = some ["fmt.Fprintf(w, \" \\\"id\\\": %d,\\n\", id)"] := ⟨rfl, rfl⟩
 end Syzgy.Tie.Dump
